@@ -21,6 +21,7 @@ VIEWS: typing.Dict[str, typing.Tuple[str, bool]] = {
     "https": ("http", True),
     "httphead": ("http", False),
     "wap": ("wap", False),
+    "waphead": ("wap", False),
     "wapauto": ("wap", False),       # no /wap prefix: detected from the Accept / X-Wap-Profile headers
     "gemini": ("gemini", True),
     "spartan": ("spartan", False),
@@ -28,7 +29,7 @@ VIEWS: typing.Dict[str, typing.Tuple[str, bool]] = {
 
 LISTING_VIEWS = ["gopher", "gophers", "gopherp+", "gopherp$", "http", "https", "wap", "gemini",
                  "spartan"]
-DOC_VIEWS = ["gopher", "gophers", "gopherp+", "gopherps+", "http", "https", "httphead", "wap",
+DOC_VIEWS = ["gopher", "gophers", "gopherp+", "gopherps+", "http", "https", "httphead", "wap", "waphead",
              "gemini", "spartan"]
 
 # protocol classes that may legitimately answer each view (shipped protocol list)
@@ -37,7 +38,7 @@ EXPECTED_PROTOCOL = {
     "gopherp+": "GopherPlusProtocol", "gopherp$": "GopherPlusProtocol",
     "gopherp!": "GopherPlusProtocol", "gopherps+": "SecureGopherPlusProtocol",
     "gopherps$": "SecureGopherPlusProtocol", "http": "HTTPProtocol", "https": "HTTPSProtocol",
-    "httphead": "HTTPProtocol", "wap": "WAPProtocol", "wapauto": "WAPProtocol", "gemini": "GeminiProtocol",
+    "httphead": "HTTPProtocol", "wap": "WAPProtocol", "waphead": "WAPProtocol", "wapauto": "WAPProtocol", "gemini": "GeminiProtocol",
     "spartan": "SpartanProtocol",
 }
 
@@ -64,7 +65,7 @@ def render(view: str, selector: bytes, query: typing.Optional[bytes] = None,
         return req + b"\t" + form + b"\r\n", tls
     path = selector.decode("latin-1") if prequoted else quote(selector)
     if family in ("http", "wap"):
-        method = "HEAD" if view == "httphead" else "GET"
+        method = "HEAD" if view in ("httphead", "waphead") else "GET"
         if family == "wap" and view != "wapauto":
             path = "/wap" + path
         if query is not None:
